@@ -31,7 +31,7 @@ m("c01-reactant-missing-dest", "C01", BASE, "                    self._lambdaMat
   "                    self._lambdaMat[origin_index, event_index] = 1")
 m("c01-revert-vmat-matrix", "C01", SIMU, '        self.add_func("vMat", self.get_StateChangeMatrix, oT="mat")', '        self.add_func("vMat", self.get_StateChangeMatrix)')
 # ---- C02 solvers
-m("c02-revert-copy", "C02", OU, "            return r.y.copy()", "            return r.y")
+m("c02-revert-copy", "C02", OU, "        else:\n            return r.y.copy()", "        else:\n            return r.y")
 m("c02-integrate2-drops-last", "C02", DET, "                                               t[0], t[1::],\n                                               includeOrigin=True,",
   "                                               t[0], t[1:-1],\n                                               includeOrigin=True,")
 m("c02-origin-appended-last", "C02", OU, "    if includeOrigin:\n        solution.append(x0)\n", "")
@@ -66,8 +66,10 @@ m("c07-revert-target-state", "C07", BL, "            index_list = [self._ode.get
 # ---- C08 staleness
 m("c08-add-event-no-trip", "C08", BASE, "            self._eventList.append(event)\n            self._hasNewTransition.trip()", "            self._eventList.append(event)")
 m("c08-revert-add-ode-trip", "C08", BASE, "                self._odeList.append(eqn)\n                self._hasNewTransition.trip()", "                self._odeList.append(eqn)")
-m("c08-derived-param-no-trip", "C08", BASE, "        self._addVariable(fixed_eqn, var_obj, self._derivedParamList, self._derivedParamDict)\n\n        self._hasNewTransition.trip()",
-  "        self._addVariable(fixed_eqn, var_obj, self._derivedParamList, self._derivedParamDict)\n")
+# (a mutant that removes trip() from _addDerivedParam is observationally equivalent: a derived parameter changes no evaluator until a
+#  process uses it, and adding that process trips the canary; it survived the first kill-matrix run for that reason and was dropped)
+m("c08-param-list-no-trip", "C08", BASE, "            raise InputError(\"Expecting a list\")\n\n        self._hasNewTransition.trip()\n\n    @property\n    def derived_param_list",
+  "            raise InputError(\"Expecting a list\")\n\n    @property\n    def derived_param_list")
 # ---- C09 binding
 m("c09-revert-dict-copy", "C09", BASE, "                    param_out = dict(self._parameters)", "                    param_out = self._parameters")
 m("c09-unknown-name-skipped", "C09", BASE, "        if input_str in self._paramDict:\n            return self._paramDict[input_str]\n        else:\n            raise InputError(\"Input parameter: %s does not exist\" % input_str)",
